@@ -156,6 +156,19 @@ def r3_session_id(chk, fx):
         ok = len(arms) == 1 and ("Option::is_none(%s)" % var) in X.ntext(arms[0]["guard"])
         chk.instance("C12/R3", "a second <%s> is not accepted (is_none guard)" % el, t["def"], loc_of(arms[0].get("sp")) if arms else None, holds=ok,
                      key="C12/R3 ServerHello duplicate-%s" % el)
+    # the is_none guard rejects a repeat only because the repeat then falls through to the error catch-all
+    from . import readers as R
+    loops = [lp for lp in R.reader_loops(fx) if lp.fn == t["def"]]
+    chk.floor("C12/R3 ServerHello reader loops", len(loops), 1)
+    for lp in loops:
+        len_ = R.lenient_arms(lp)
+        rep = R.repeated_names(lp)
+        ca = [a for a in lp.arms if a.catch_all]
+        ok = not len_ and not rep and len(ca) == 1 and "returnResult::Err(" in ca[0].body_text()
+        chk.instance("C12/R3", "%s: a repeated or unknown element reaches the error catch-all (no skipping arm, one arm per element)" % lp.label(), t["def"],
+                     loc_of((len_ or rep or [lp])[0].sp), holds=ok, key="C12/R3 %s lenient-arm" % lp.label(),
+                     detail=("arm %s accepts content it does not name: a second <session-id>/<capabilities> fails its is_none guard and is "
+                             "swallowed here" % (len_ or rep)[0].describe()) if (len_ or rep) else None)
     s = X.ntext(body)
     for el in ("capabilities", "session-id"):
         chk.instance("C12/R3", "missing <%s> is an error" % el, t["def"], None,
